@@ -170,11 +170,42 @@ func (li *loopInfo) invariant(v ssa.Value) bool {
 								}
 							}
 						case ssa.CallInstruction:
-							if g := z.Common().StaticCallee(); z.Common().IsInvoke() || g == nil || (IsOwn(g) && len(g.Blocks) > 0 && !pureLeaf(g)) {
-								if n := CalleeName(z.Common()); !strings.HasPrefix(n, "builtin:") {
-									if g == nil || IsOwn(g) {
-										return false
-									}
+							// a callee can change the field only through the object: it must be handed the
+							// object itself (receiver or argument) — values read out of it do not count
+							args := append([]ssa.Value{}, z.Common().Args...)
+							if z.Common().IsInvoke() {
+								args = append(args, z.Common().Value)
+							}
+							for _, a := range args {
+								if valueRoot(stripConv(a)) == valueRoot(stripConv(fa.X)) {
+									return false
+								}
+							}
+						}
+					}
+				}
+				return true
+			}
+			// a local that lives in a cell (a closure captures it): invariant when the loop neither
+			// stores to the cell nor hands its address to anything
+			if al, ok := y.X.(*ssa.Alloc); ok && y.Op == token.MUL {
+				for b := range li.Blocks {
+					for _, in := range b.Instrs {
+						switch z := in.(type) {
+						case *ssa.Store:
+							if z.Addr == ssa.Value(al) {
+								return false
+							}
+						case ssa.CallInstruction:
+							for _, a := range z.Common().Args {
+								if a == ssa.Value(al) {
+									return false
+								}
+							}
+						case *ssa.MakeClosure:
+							for _, bnd := range z.Bindings {
+								if bnd == ssa.Value(al) {
+									return false
 								}
 							}
 						}
@@ -342,6 +373,15 @@ func (li *loopInfo) classify() (shape string, desc string) {
 					}
 				}
 			}
+			// counted, the variable living in a cell (a function literal in the body reads it): the
+			// exit compares *cell with an invariant bound; every store to the cell in the loop writes
+			// *cell ± one and the same constant, one such store lies on every way round, and no
+			// literal that captures the cell stores to it
+			if ld, ok := stripConv(v).(*ssa.UnOp); ok && ld.Op == token.MUL && li.invariant(bound) {
+				if al, ok := ld.X.(*ssa.Alloc); ok && li.cellCounted(al) {
+					return "counted", ""
+				}
+			}
 			phi := li.headerPhiOf(v)
 			if phi == nil || !li.invariant(bound) {
 				continue
@@ -468,6 +508,22 @@ func checkLoopProgress(c *Ctx, fns []*ssa.Function) {
 					break
 				}
 			}
+			if !ok {
+				// a reviewed loop whose function was merged into its caller: the row belongs to a
+				// function that no longer exists and that this function used to call
+				knownFunc("")
+				for i, row := range c09LoopTable {
+					if row.exits == "" || !strings.Contains(desc, row.exits) || p.Fn(row.fn) != nil {
+						continue
+					}
+					for _, caller := range knownCallers[row.fn] {
+						if caller == FuncKey(fn) {
+							ok, why = true, "reviewed (row of "+row.fn+", which was merged into this function): "+row.reason
+							used[i] = true
+						}
+					}
+				}
+			}
 			if !ok && isNewHelper(fn) {
 				// a loop that moved into a new helper: the reviewed row of every known function the
 				// helper now works for must cover it (same exit condition)
@@ -476,10 +532,22 @@ func checkLoopProgress(c *Ctx, fns []*ssa.Function) {
 				for _, r := range roots {
 					hit := false
 					for i, row := range c09LoopTable {
-						if row.fn == FuncKey(r) && row.exits != "" && strings.Contains(desc, row.exits) {
+						if row.exits == "" || !strings.Contains(desc, row.exits) {
+							continue
+						}
+						mine := row.fn == FuncKey(r)
+						if !mine && p.Fn(row.fn) == nil {
+							// the row's function is gone and r used to call it: its loop came here
+							for _, caller := range knownCallers[row.fn] {
+								if caller == FuncKey(r) {
+									mine = true
+								}
+							}
+						}
+						if mine {
 							hit = true
 							used[i] = true
-							why = "reviewed (row of " + FuncKey(r) + ", whose loop moved into this helper): " + row.reason
+							why = "reviewed (row of " + row.fn + ", whose loop moved into this helper): " + row.reason
 						}
 					}
 					if !hit {
@@ -601,4 +669,74 @@ func pureLeaf(g *ssa.Function) bool {
 		}
 	}
 	return true
+}
+
+func (li *loopInfo) cellCounted(al *ssa.Alloc) bool {
+	var step int64
+	nStores := 0
+	onEvery := false
+	for b := range li.Blocks {
+		for _, in := range b.Instrs {
+			switch z := in.(type) {
+			case *ssa.Store:
+				if z.Addr != ssa.Value(al) {
+					continue
+				}
+				bo, ok := stripConv(z.Val).(*ssa.BinOp)
+				if !ok {
+					return false
+				}
+				ld, ok := stripConv(bo.X).(*ssa.UnOp)
+				if !ok || ld.Op != token.MUL || ld.X != ssa.Value(al) {
+					return false
+				}
+				c, isC := constInt(bo.Y)
+				if !isC || c == 0 {
+					return false
+				}
+				switch bo.Op {
+				case token.ADD:
+				case token.SUB:
+					c = -c
+				default:
+					return false
+				}
+				if nStores > 0 && c != step {
+					return false
+				}
+				step = c
+				nStores++
+				every := len(li.Latch) > 0
+				for _, l := range li.Latch {
+					if !(b == l || b.Dominates(l)) {
+						every = false
+					}
+				}
+				if every {
+					onEvery = true
+				}
+			case *ssa.MakeClosure:
+				g, _ := z.Fn.(*ssa.Function)
+				for i, bnd := range z.Bindings {
+					if bnd != ssa.Value(al) || g == nil || i >= len(g.FreeVars) {
+						continue
+					}
+					for _, gb := range g.Blocks {
+						for _, gin := range gb.Instrs {
+							if st, ok := gin.(*ssa.Store); ok && st.Addr == ssa.Value(g.FreeVars[i]) {
+								return false
+							}
+						}
+					}
+				}
+			case ssa.CallInstruction:
+				for _, a := range z.Common().Args {
+					if a == ssa.Value(al) {
+						return false
+					}
+				}
+			}
+		}
+	}
+	return nStores > 0 && onEvery
 }
